@@ -65,6 +65,7 @@ package sugardb
 //@   invariant maps: this.store != nil && this.keysWithExpiry.keys != nil && this.lfuCache.cache != nil && this.lruCache.cache != nil
 //@   invariant locks: this.storeLock != nil && this.lfuCache.mutex != nil && this.lruCache.mutex != nil && this.lfuCache.mutex != this.lruCache.mutex && this.connInfo.mut != nil && this.storeLock != this.lfuCache.mutex && this.storeLock != this.lruCache.mutex && this.connInfo.mut != this.storeLock && this.connInfo.mut != this.lfuCache.mutex && this.connInfo.mut != this.lruCache.mutex
 //@   invariant dbs: forall d int :: dbwf(this, d)
+//@   invariant present: forall d int :: has(this.store, d) ==> this.store[d] != nil
 
 // cachewf: the eviction caches of database d satisfy their data-structure invariants. Stated per database: that the
 // caches of different databases share no entry, backing array or key map is an ownership fact outside these contracts.
@@ -116,12 +117,14 @@ package sugardb
 //@   ensures {C01,C20} otherkeys: forall k string :: !has(entries, k) ==> (has(server.store[dbof(ctx)], k) <==> old(has(server.store[dbof(ctx)], k))) && server.store[dbof(ctx)][k] == old(server.store[dbof(ctx)][k])
 //@   ensures {C20} otherdbs: forall d int :: d != dbof(ctx) ==> server.store[d] == old(server.store[d])
 //@   ensures {C20} dbexists: result == nil ==> server.store[dbof(ctx)] != nil
+//@   ensures {C19} accounting: result == nil ==> server.memUsed == old(server.memUsed) + sumover(k, dom(entries), 24 + valmem(old(entries[k])) + 16 + len(k) - (old(has(server.store[dbof(ctx)], k)) && memok(old(server.store[dbof(ctx)][k].Value)) ? entrymem(old(server.store[dbof(ctx)][k]), k) : 0))
 //@   modifies server.store[*], server.store[dbof(ctx)][*], server.memUsed, server.keysWithExpiry.keys[*], server.lfuCache.cache[*], server.lruCache.cache[*], heap:$atomic
 //@   loop 0
 //@     invariant server.store[database] != nil && inv(server, maps) && inv(server, locks) && inv(server, dbs) && holds(server.storeLock)
 //@     invariant forall k string :: seen(k) ==> has(server.store[database], k) && server.store[database][k].Value == entries[k]
 //@     invariant forall k string :: seen(k) ==> server.store[database][k].ExpireAt == (old(livekey(server, database, k, $now)) ? old(server.store[database][k].ExpireAt) : zerotime)
 //@     invariant forall k string :: !seen(k) ==> (has(server.store[database], k) <==> old(has(server.store[database], k))) && server.store[database][k] == old(server.store[database][k])
+//@     invariant server.memUsed == old(server.memUsed) + sumover(k, seenset(), 24 + valmem(old(entries[k])) + 16 + len(k) - (old(has(server.store[dbof(ctx)], k)) && memok(old(server.store[dbof(ctx)][k].Value)) ? entrymem(old(server.store[dbof(ctx)][k]), k) : 0))
 
 //@ func (*SugarDB).getValues props C01,C04,C13,C20,C05
 //@   requires hasdb(ctx) && standalone(server)
@@ -143,3 +146,67 @@ package sugardb
 //@     invariant forall k string :: has(values, k) ==> values[k] == (old(livekey(server, database, k, $now)) ? old(server.store[database][k].Value) : nil)
 //@     invariant forall k string :: old(has(server.store[database], k)) && !has(server.store[database], k) ==> old(expired(server.store[database][k], $now))
 //@     invariant forall k string :: has(server.store[database], k) ==> old(has(server.store[database], k)) && server.store[database][k] == old(server.store[database][k])
+
+// ---- flush / databases -------------------------------------------------------------------------
+
+//@ func (*SugarDB).Flush props C20,C19,C08,C05
+//@   requires dbexists: database == -1 || server.store[database] != nil
+//@   preserves maps, locks, dbs, present
+//@   ensures {C20} one: database != -1 ==> (forall k string :: !has(server.store[database], k))
+//@   assumes own-dbs: forall d int, e int :: d != e && server.store[d] != nil ==> server.store[d] != server.store[e]
+//@   ensures {C20} others: database != -1 ==> (forall d int, k string :: d != database ==> (has(server.store[d], k) <==> old(has(server.store[d], k))) && server.store[d][k] == old(server.store[d][k]))
+//@   ensures {C20} all: database == -1 ==> (forall d int, k string :: has(server.store, d) ==> !has(server.store[d], k))
+//@   ensures {C20} samedbs: forall d int :: server.store[d] == old(server.store[d]) && (has(server.store, d) <==> old(has(server.store, d)))
+//@   ensures {C08} index: database != -1 ==> len(server.keysWithExpiry.keys[database]) == 0
+//@   ensures {C08} indexall: database == -1 ==> (forall d int :: has(server.store, d) ==> len(server.keysWithExpiry.keys[d]) == 0)
+//@   ensures {C19} mem: database == -1 ==> server.memUsed == 0
+//@   ensures {C19} memone: database != -1 ==> server.memUsed == old(server.memUsed) - old(sumover(k, dom(server.store[database]), (memok(old(server.store[database][k].Value)) ? entrymem(old(server.store[database][k]), k) : 0)))
+//@   modifies *
+//@   loop 0
+//@     invariant inv(server, maps) && inv(server, locks) && inv(server, dbs) && inv(server, present) && holds(server.storeLock) && holds(server.keysWithExpiry.rwMutex)
+//@     invariant onlyheld(server.storeLock, server.keysWithExpiry.rwMutex)
+//@     invariant forall d int :: server.store[d] == old(server.store[d]) && (has(server.store, d) <==> old(has(server.store, d)))
+//@     invariant forall d int, k string :: seen(d) ==> !has(server.store[d], k)
+//@     invariant forall d int :: seen(d) ==> len(server.keysWithExpiry.keys[d]) == 0
+//@     invariant forall d int :: domain0(d) <==> has(server.store, d)
+//@   loop 1
+//@     invariant server.memUsed == old(server.memUsed) - sumover(k, seenset(), (memok(old(server.store[database][k].Value)) ? entrymem(old(server.store[database][k]), k) : 0))
+//@     invariant forall k string :: domain0(k) <==> old(has(server.store[database], k))
+//@     invariant forall k string :: server.store[database][k] == old(server.store[database][k])
+
+//@ spec swapdb(x int, a int, b int) int = x == a ? b : (x == b ? a : x)
+
+//@ func (*SugarDB).SwapDBs props C20,C05
+//@   requires server.connInfo.tcpClients != nil
+//@   preserves maps, locks, dbs, present
+//@   ensures {C20} swapped: forall c *net.Conn :: has(server.connInfo.tcpClients, c) ==> server.connInfo.tcpClients[c].Database == swapdb(old(server.connInfo.tcpClients[c].Database), database1, database2) && server.connInfo.tcpClients[c].Id == old(server.connInfo.tcpClients[c].Id) && server.connInfo.tcpClients[c].Name == old(server.connInfo.tcpClients[c].Name) && server.connInfo.tcpClients[c].Protocol == old(server.connInfo.tcpClients[c].Protocol)
+//@   ensures {C20} sameconns: forall c *net.Conn :: has(server.connInfo.tcpClients, c) <==> old(has(server.connInfo.tcpClients, c))
+//@   ensures {C20} embedded: server.connInfo.embedded == old(server.connInfo.embedded)
+//@   ensures {C20} data: forall d int :: old(server.store[d]) != nil ==> server.store[d] == old(server.store[d])
+//@   modifies server.store[*], server.keysWithExpiry.keys[*], server.lfuCache.cache[*], server.lruCache.cache[*], server.connInfo.tcpClients[*]
+//@   loop 0
+//@     invariant -1 <= rangeindex && rangeindex < 2 && holds(server.storeLock) && onlyheld(server.storeLock)
+//@     invariant inv(server, maps) && inv(server, locks) && inv(server, dbs) && inv(server, present) && server.connInfo.tcpClients != nil
+//@     invariant forall d int :: old(server.store[d]) != nil ==> server.store[d] == old(server.store[d])
+//@   loop 1
+//@     invariant inv(server, maps) && inv(server, locks) && inv(server, dbs) && inv(server, present) && onlyheld(server.connInfo.mut)
+//@     invariant forall c *net.Conn :: has(server.connInfo.tcpClients, c) <==> old(has(server.connInfo.tcpClients, c))
+//@     invariant forall c *net.Conn :: domain0(c) <==> old(has(server.connInfo.tcpClients, c))
+//@     invariant forall c *net.Conn :: !seen(c) ==> server.connInfo.tcpClients[c] == old(server.connInfo.tcpClients[c])
+//@     invariant forall c *net.Conn :: seen(c) ==> server.connInfo.tcpClients[c].Database == swapdb(old(server.connInfo.tcpClients[c].Database), database1, database2) && server.connInfo.tcpClients[c].Id == old(server.connInfo.tcpClients[c].Id) && server.connInfo.tcpClients[c].Name == old(server.connInfo.tcpClients[c].Name) && server.connInfo.tcpClients[c].Protocol == old(server.connInfo.tcpClients[c].Protocol)
+//@     invariant forall d int :: old(server.store[d]) != nil ==> server.store[d] == old(server.store[d])
+
+// ---- the functions handed to command handlers (internal.HandlerFuncParams) --------------------------
+
+//@ func (*SugarDB).getHandlerFuncParams$1 props C04,C08,C19,C20,C05
+//@   requires hasdb(ctx) && server.store[dbof(ctx)] != nil && cachewf(server, dbof(ctx))
+//@   preserves server.maps, server.locks, server.dbs
+//@   ensures {C04,C08} removed: result == nil ==> !has(server.store[dbof(ctx)], key)
+//@   ensures {C20} otherkeys: forall k string :: k != key ==> (has(server.store[dbof(ctx)], k) <==> old(has(server.store[dbof(ctx)], k))) && server.store[dbof(ctx)][k] == old(server.store[dbof(ctx)][k])
+//@   ensures {C19} accounting: result == nil ==> server.memUsed == old(server.memUsed) - (old(has(server.store[dbof(ctx)], key)) ? entrymem(old(server.store[dbof(ctx)][key]), key) : 0)
+//@   ensures caches: cachewf(server, dbof(ctx))
+//@   modifies server.store[dbof(ctx)][*], server.memUsed, server.keysWithExpiry.keys[*], server.keysWithExpiry.keys[dbof(ctx)][*], heap:F_eviction_CacheLFU_entries, heap:F_eviction_CacheLRU_entries, heap:E_Peviction_EntryLFU, heap:E_Peviction_EntryLRU, heap:Mdom_string_bool, heap:Mval_string_bool, heap:Mcard_string_bool, heap:F_eviction_EntryLFU_index, heap:F_eviction_EntryLRU_index
+
+//@ func (*SugarDB).getClock noalloc props C04
+//@   ensures result == server.clock
+//@   modifies nothing
